@@ -100,6 +100,11 @@ claimed = {
    note="Bounded: 2 callers, 3 of 6 entry points, preemption bound 2. Data-race freedom assumed. Schedule-dependent counterexamples are confirmed by deterministic re-execution in the executor when the native scheduler does not reproduce them.",
    technique="SSA symbolic execution with preemption-bounded exhaustive schedule exploration",
    design="5 C09"),
+ "C11": dict(
+   text="Adapter only. The real walletdb/bdb code (Update/View with rollback-on-error and on panic, BeginRead/WriteTx, transaction, bucket and cursor wrappers, convertErr) runs over a model of bbolt's API contract; for every sequence of 1-2 (thorough 3) managed updates that commit, fail or panic, with puts/deletes/nested buckets/sequences, a later transaction must see exactly the reference content (all-or-nothing), ascending keys forwards and descending backwards, read-your-writes, independent nested buckets, nil interfaces for missing buckets and ErrTxNotWritable for every write in a read transaction. Natively the same harness runs on a real bbolt file (incl. reopen), which validates the model.",
+   note="bbolt's own atomicity/durability is outside (cannot be encoded); stated in DESIGN. Small key alphabet; values symbolic.",
+   technique="SSA symbolic execution of the adapter over an API-contract model of bbolt; native differential replay on real bbolt",
+   design="5 C11"),
 }
 
 not_applicable = {
